@@ -366,6 +366,72 @@ def lname_worker(job):
     return st
 
 
+RAW_NAMES = [b"caf\xe9", b"a\xffb", b"\xff", b"\x80x", b"x\xfe", b"\xe9t\xe9", b"\xffab", b"f\xffx", b"A\xffB", b"na\xefve.txt", b"\xfe\xff"]
+PLAIN_NAMES = ["cafe", "ab", "x", "caf\u00e9", "a?b", "fx", "AB", "naive.txt"]
+
+
+def raw_name_worker(job):
+    """Names that are not well-formed UTF-8 (a Latin-1 'caf\\xe9'), on a real tree through the real binary. Such a name is matched as
+    find prints it - every ill-formed byte stands for one character - so '*', '?', '[!x]' and the ASCII parts must behave as for any
+    other name. Each name lives in its own directory d/kNN/, and the directory is what gets printed (the name itself prints lossily)."""
+    import posixfn
+    k, nruns, seed = job
+    st = Stats()
+    rng = common.rng_for(seed, "C12raw", k)
+    base = common.mkscratch("C12r%d" % k)
+    try:
+        names = [os.fsdecode(n) for n in RAW_NAMES] + PLAIN_NAMES
+        for i, n in enumerate(names):
+            os.makedirs(os.path.join(base, "d", "k%02d" % i))
+            open(os.path.join(base, "d", "k%02d" % i, n), "w").close()
+        shown = [os.fsencode(n).decode("utf-8", "replace") for n in names]       # the text find matches and prints
+        for run in range(nruns):
+            n = rng.choice(names[:len(RAW_NAMES)])
+            text = os.fsencode(n).decode("utf-8", "replace")
+            # a pattern derived from the name: every ill-formed byte becomes '?', '*', '[!q]' or '[^a-z]'; ASCII parts kept, dropped or starred
+            pat = ""
+            for ch in text:
+                if ch == "\ufffd":
+                    pat += rng.choice(["?", "?", "*", "[!q]", "[!a-z]", "??"])
+                else:
+                    pat += rng.choice([ch, ch, ch, "?", "*", "[" + ch + "]"])
+            if rng.random() < 0.2:
+                pat = rng.choice(["*", "?*", "*?", pat + "*", "*" + pat[-1:]])
+            kind = rng.choice(["-name", "-name", "-iname", "-path", "-ipath"])
+            cf = kind in ("-iname", "-ipath")
+            if cf:
+                pat = pat.swapcase() if rng.random() < 0.5 else pat
+            fpat = pat if kind in ("-name", "-iname") else "d/k*/" + pat
+            rc, out, err, to = common.run_cmd([common.FIND, "d", "-mindepth", "2", kind, fpat, "-printf", "%h\\0"], cwd=base,
+                                              env=common.clean_env(), timeout=60)
+            st.inc("raw_name_runs")
+            rp = {"args": ["find", "d", "-mindepth", "2", kind, fpat, "-printf", "%h\\0"], "names": [list(os.fsencode(x)) for x in names]}
+            if to or rc != 0:
+                st.violate("panic", None, {"args": rp["args"], "rc": rc, "stderr": err[-300:]}, rp)
+                continue
+            got = set(x.decode() for x in out.split(b"\0") if x)
+            try:
+                toks = posixfn.parse(pat, cf)
+            except posixfn.Unsupported:
+                st.inc("out_of_domain_own_matcher")
+                continue
+            for i, (nm, tx) in enumerate(zip(names, shown)):
+                want = posixfn.match_tokens(toks, tx, cf)
+                if cf and not tx.isascii() and any(c.isalpha() and not c.isascii() for c in tx):
+                    continue                           # case pairs outside ASCII: not decided (see the verdict domain)
+                st.inc("evaluations")
+                if i < len(RAW_NAMES):
+                    st.inc("evaluations_on_names_that_are_not_utf8")
+                    st.inc("raw_members" if want else "raw_non_members")
+                g = ("d/k%02d" % i) in got
+                if g != want:
+                    st.violate("fnmatch-mismatch", None, {"test": kind, "pattern": fpat, "name_bytes": os.fsencode(nm), "matched_as": tx,
+                                                          "expected": want, "find": g, "source": "binary/raw-names"}, rp)
+    finally:
+        common.force_rmtree(base)
+    return st
+
+
 def memcheck_worker(job):
     """The same kind of pattern rows replayed under valgrind memcheck: Oniguruma (C) compiles and runs every translated
     pattern. A crash is a violation; memcheck reports without a crash are advisory (counted, shown in the notes)."""
@@ -437,6 +503,9 @@ def run(ctx):
     ctx.pmap(random_worker, [(k, nrand // nw, ctx.seed) for k in range(nw)])
     nl = ctx.scale(320, 8000)
     ctx.pmap(lname_worker, [(k, nl // nw, ctx.seed) for k in range(nw)])
+    ctx.pmap(raw_name_worker, [(k, ctx.scale(6, 400), ctx.seed) for k in range(nw)])
+    ctx.require("raw_members", 20)
+    ctx.require("raw_non_members", 20)
     if common.memcheck_available():
         nm = ctx.scale(1200, 48000)
         ctx.pmap(memcheck_worker, [(k, nm // nw, ctx.seed) for k in range(nw)])
